@@ -103,6 +103,8 @@ pub mod string;
 pub mod symbol;
 pub mod value;
 pub mod vm;
+#[cfg(boa_verif)]
+pub mod verif;
 
 mod host_defined;
 mod sys;
